@@ -36,7 +36,13 @@ mod replay {
             Ok(()) => println!("REPLAY-RESULT: passed ({name})"),
             Err(e) => {
                 let msg = e.downcast_ref::<String>().cloned().or_else(|| e.downcast_ref::<&str>().map(|s| s.to_string())).unwrap_or_default();
-                println!("REPLAY-RESULT: reproduced ({name}): {msg}");
+                // a trace that ends early, or an assumption that does not hold natively, means that the native run
+                // took a different path than the solver's model: the counterexample did NOT reproduce
+                if msg.contains("Not enough det vals") || msg.contains("should always hold") {
+                    println!("REPLAY-RESULT: diverged ({name}): {msg}");
+                } else {
+                    println!("REPLAY-RESULT: reproduced ({name}): {msg}");
+                }
             },
         }
     }
